@@ -92,7 +92,8 @@ OPS = ("attr", "dotted", "submap", "submap_partial", "sub_wrongtype", "ct_map", 
        "l_setitem", "d_setitem", "d_setdefault", "items_append", "items_setitem", "ctor_kw",
        "submap_validator", "submap_required", "dotted_submap_validator", "load_tree_nested_validator",
        "items_setitem_partial", "items_append_partial", "items_insert_partial",
-       "titems_insert_partial", "titems_setitem_partial", "titems_append_partial")
+       "titems_insert_partial", "titems_setitem_partial", "titems_append_partial",
+       "sub_config_object_required", "sub_config_object_validator", "dotted_config_object")
 
 
 def _rejected(op: str, bad_i: int, sa: bool, sb: bool, sl: bool, si: bool, x: int) -> bool:
@@ -165,12 +166,31 @@ def _rejected(op: str, bad_i: int, sa: bool, sb: bool, sl: bool, si: bool, x: in
             cfg["v"] = {"used": 99}
         elif op == "load_tree_nested_validator":
             cfg.load_tree({"v": {"limit": 1, "used": 2}})
+        elif op == "sub_config_object_required":
+            # a configuration OBJECT of the right schema whose required field is unset (if the library refuses it,
+            # the refusal must be atomic like any other)
+            cfg.r = schema.r()
+        elif op in ("sub_config_object_validator", "dotted_config_object"):
+            candidate = schema.v()
+            candidate.limit = 1
+            candidate.used = 2        # individually valid, together refused by the sub-schema's validator
+            if op == "dotted_config_object":
+                cfg["v"] = candidate
+            else:
+                cfg.v = candidate
     except Exception:  # noqa: BLE001 - which exception is C15's subject
         after = snap(cfg)
         hold("unchanged", after[0] == before[0], lambda: "values changed by a rejected %s: %r -> %r" % (op, before[0], after[0]))
         hold("unchanged", after[1] == before[1], lambda: "user-defined status changed by a rejected %s" % op)
         hold("unchanged", after[2] == before[2], lambda: "identity of nested configurations changed by a rejected %s" % op)
         return True
+    if op in ("sub_config_object_required", "sub_config_object_validator", "dotted_config_object"):
+        # the library may accept a configuration object as it is (it does not validate it at this point): then it IS
+        # the sub-configuration now and nothing else moved
+        key = "r" if op == "sub_config_object_required" else "v"
+        after = snap(cfg)
+        return hold("unchanged", {k: v for k, v in after[0].items() if k != key} == {k: v for k, v in before[0].items() if k != key},
+                    lambda: "an accepted %s changed other fields" % op)
     skip("operation was accepted")
 
 
@@ -188,6 +208,8 @@ def _mk_rej(op: str):
         """
         if not (sa or sb or sl or si) and x != 0:
             skip("x unused")
+        if op in ("sub_config_object_required", "sub_config_object_validator", "dotted_config_object") and bad_i:
+            skip("offending shape unused")
         return _rejected(op, bad_i, sa, sb, sl, si, x)
 
 
